@@ -3,6 +3,7 @@ import EaselModel.Msa.LemmasConv
 import EaselModel.Msa.LemmasGaps
 import EaselModel.Msa.LemmasTags
 import EaselModel.Msa.LemmasWuss
+import EaselModel.Msa.LemmasRbb
 /-! # C15 — alignment transformations keep the alignment well formed and the residues intact; WUSS round trips
 
 Property theorems only; proofs are glue on the lemmas of `EaselModel/Msa/Lemmas*.lean`.
@@ -39,15 +40,25 @@ theorem columnCompact_is_filter (m : Msa) (mask : List Bool) (wf : m.WF) (hm : m
     columnCompact m mask = some (m.colFilter mask) :=
   columnCompact_eq m mask wf hm
 
-/-- DNA/RNA alignments: `esl_msa_ColumnSubset` = base-pair repair, then the same column filter.
-    PARTIAL: needs as a hypothesis that the repaired alignment is well formed (`esl_ct2wuss` writes `alen` non-NUL
-    symbols — checked on every run by the differential test and the monitors, not yet proved). -/
-theorem columnSubset_nucleic_partial (m : Msa) (mask : List Bool) (a : Abc) (habc : m.abc = some a)
-    (hn : a.isNucleic = true) (hok : (removeBrokenBasepairs m mask).st = .ok)
-    (wf' : (removeBrokenBasepairs m mask).msa.WF) (hm : mask.length = (removeBrokenBasepairs m mask).msa.alen) :
-    columnSubset m mask = { msa := (removeBrokenBasepairs m mask).msa.colFilter mask, st := .ok } := by
-  have h := columnCompact_eq _ mask wf' hm
-  simp [columnSubset, habc, hn, hok, h]
+/-- DNA/RNA alignments: `esl_msa_ColumnSubset` first repairs the base pairs (`esl_msa_RemoveBrokenBasepairs`, which
+    rewrites only SS_cons and the per-sequence SS lines and keeps the alignment well formed) and then applies the
+    same column filter to every aligned field of the repaired alignment; if the repair reports an error (an SS line
+    that is not balanced WUSS) that status is returned and no column is removed. -/
+theorem columnSubset_nucleic (m : Msa) (mask : List Bool) (a : Abc) (wf : m.WF) (habc : m.abc = some a)
+    (hn : a.isNucleic = true) (hm : mask.length = m.alen) :
+    ((removeBrokenBasepairs m mask).st = .ok →
+        columnSubset m mask = { msa := (removeBrokenBasepairs m mask).msa.colFilter mask, st := .ok } ∧
+        ((removeBrokenBasepairs m mask).msa.colFilter mask).WF ∧
+        ∃ sc ss', (removeBrokenBasepairs m mask).msa = { m with ss_cons := sc, ss := ss' }) ∧
+    ((removeBrokenBasepairs m mask).st ≠ .ok → columnSubset m mask = removeBrokenBasepairs m mask) := by
+  constructor
+  · intro hok
+    obtain ⟨wf', hal, hform⟩ := removeBrokenBasepairs_wf m mask wf hok
+    have hm' : mask.length = (removeBrokenBasepairs m mask).msa.alen := by rw [hal]; exact hm
+    have h := columnCompact_eq _ mask wf' hm'
+    exact ⟨by simp [columnSubset, habc, hn, hok, h], colFilter_wf _ mask wf' hm', hform⟩
+  · intro hbad
+    simp [columnSubset, habc, hn, hbad]
 
 /-- well-formedness (every aligned length = the new `alen`, no embedded terminator, >= 1 sequence, table widths) is
     preserved by the column selection -/
@@ -255,6 +266,28 @@ theorem wuss2ct_involution (ss : Bytes) (ct : List Nat) (h : wuss2ct ss = some c
 theorem wuss2ct_pairs_matched (ss : Bytes) (ct : List Nat) (h : wuss2ct ss = some ct) (i : Nat)
     (hi : ct.getD i 0 ≠ 0) (hlt : i < ct.getD i 0) : pairOk ss i (ct.getD i 0) :=
   wuss2ct_pairs_matched' ss ct h i hi hlt
+
+/-- `esl_msa_RemoveBrokenBasepairsFromSS`: on a balanced WUSS string the pair table handed to `esl_ct2wuss` holds
+    EXACTLY the original pairs whose two partners are both retained (every other position is unpaired).
+    (That the re-encoded string spells the same table is the `ct2wuss` round trip: checked on every run by the
+    monitors against an independent WUSS reader; not proved — see `level_note`.) -/
+theorem removeBroken_keeps_exactly (ss : Bytes) (useme : List Bool) (ct : List Nat) (h : wuss2ct ss = some ct) :
+    removeBrokenFromSS ss useme = ct2wuss (breakPairs useme 1 ss.length ct) ∧
+    ∀ i, (breakPairs useme 1 ss.length ct).getD i 0 =
+      if ct.getD i 0 ≠ 0 ∧ useme.getD (i-1) false = true ∧ useme.getD (ct.getD i 0 - 1) false = true
+      then ct.getD i 0 else 0 := by
+  refine ⟨by simp [removeBrokenFromSS, h], fun i => ?_⟩
+  exact breakPairs_spec' useme ss.length ct (wuss2ct_ctOk ss ct h) i
+
+/-- an unbalanced SS line is left untouched and reported as `eslESYNTAX` -/
+theorem removeBroken_rejects_unbalanced (ss : Bytes) (useme : List Bool) (h : wuss2ct ss = none) :
+    removeBrokenFromSS ss useme = .error .esyntax := by
+  simp [removeBrokenFromSS, h]
+
+/-- `esl_ct2wuss` / `esl_ct2simplewuss`, when they succeed, write exactly `n` symbols and no NUL -/
+theorem ct2wuss_shape (simple : Bool) (ct : List Nat) (ss : Bytes) (h : ct2wussGen simple ct = .ok ss) :
+    ss.length = ct.length - 1 ∧ ∀ c ∈ ss, c ≠ 0 :=
+  ct2wussGen_shape simple ct ss h
 
 /-- `esl_wuss_reverse` is an involution on every string -/
 theorem wussReverse_involutive (ss : Bytes) : wussReverse (wussReverse ss) = ss :=
